@@ -1,12 +1,11 @@
-"""C20 - attention is a masked convex combination of values, blind to masked positions.
-
-Bounded run-time contracts only so far (contracts/C20_rt.py); the deductive obligations of DESIGN.md
-par. 3 (C20.soft.convex, C20.soft.blind) are added here when engine A's tensor layer reaches them.
-"""
-from contracts import C20_rt
+"""C20 - attention is a masked convex combination of values, blind to masked positions."""
+from contracts import C20_rt, C20_vc
+from vf.pyvc import api
 
 CHECKERS = dict(C20_rt.CHECKERS)
 
 
 def run(ctx):
+    api.run_vcs(ctx, C20_vc.vcs(ctx), {"C20.S.convex_blind": "real dot-product / generalised soft attention source: output coordinate within [min, max] of the kept values; output unchanged when masked keys/values are replaced; all contents"},
+                bounded="sequence length T<=3 (4), key size <=2, value size <=2, sequence dim 0, un-batched; ALL queries, keys, values, masks, parameters")
     C20_rt.run_bounded(ctx)
